@@ -905,7 +905,14 @@ func (sc *Scope) pureMethod(recv Val, name string, args []Val) Val {
 			all[i] = sc.at_(all[i], fn.Params[i].Type())
 		}
 	}
-	return e.inlineCall(sc.fr, fn, all, &st, "true", rt)
+	r := sc.reach
+	if r == "" {
+		r = "true"
+	}
+	if sc.bound > 0 {
+		r = "true" // under a quantifier the guard may mention bound variables; inlined bodies there must be assumption-free
+	}
+	return e.inlineCall(sc.fr, fn, all, &st, r, rt)
 }
 
 // ---------- verifying one function against its contract ----------
@@ -920,6 +927,8 @@ type FuncResult struct {
 	Used     []string // contracts relied on
 	NoContr  []string // callees handled by havoc+inferred frame
 	Inlined  []string
+	Defines  []string
+	AbsUsed  []string
 	Devirt   []string
 	Loops    int
 	Instrs   int
@@ -947,6 +956,8 @@ func (ctx *Ctx) verifyFunc(fn *ssa.Function, opt *EncOpts) *FuncResult {
 	res.Used = sortedKeys(e.usedContracts)
 	res.NoContr = sortedKeys(e.usedNoContract)
 	res.Inlined = sortedKeys(e.usedInline)
+	res.Defines = sortedKeys(e.definesUsed)
+	res.AbsUsed = sortedKeys(e.absUsed)
 	res.Devirt = sortedKeys(e.devirtUsed)
 	for _, b := range fn.Blocks {
 		res.Instrs += len(b.Instrs)
@@ -1072,8 +1083,8 @@ func (e *Enc) run(fn *ssa.Function) {
 						sz = 1
 					}
 					bytes := app("bvmul", ln, c64(sz))
-					bound := bvadd(app("bvmul", c64(64), rem0), c64(65536))
-					e.oblig("alloc", e.exprText(x.Pos()), reach, and(app("bvsle", ln, c64(1<<40)), app("bvsle", bytes, bound)), x.Pos(), []string{"alloc"}, "allocation bounded by 64 x available input bytes + 64 KiB", nil)
+					bound := bvadd(app("bvmul", c64(64), rem0), c64(1<<20))
+					e.oblig("alloc", e.exprText(x.Pos()), reach, and(app("bvsle", ln, c64(1<<40)), app("bvsle", bytes, bound)), x.Pos(), []string{"alloc"}, "allocation bounded by 64 x available input bytes + 1 MiB", nil)
 				}
 			}
 			break
